@@ -235,7 +235,7 @@ def main(argv):
     names = list(FIELDS)
     try:
         if a.tier == "quick":
-            cfgs = (a.configs.split(",") if a.configs else ["default", "m51", "w32"])
+            cfgs = (a.configs.split(",") if a.configs else ["default", "m51", "w32", "clmul"])
             per, nbin = int(30000 * a.scale), int(60000 * a.scale)
         else:
             cfgs = (a.configs.split(",") if a.configs else ALL_CONFIGS)
